@@ -10,7 +10,8 @@ from props import c04
 RULE = ("documents with keys/values over an adversarial alphabet (quote, backslash, colon, braces, brackets, comma, space, non-ASCII, "
         "the two-character sequence quote-colon), nesting depth <= 6, rendered by json.dumps(indent=4) and passed through the real "
         "prettyPrint at widths 29, 34 and random: (S) json.loads of the result equals the document, (M) the text equals the model's; "
-        "plus arbitrary text lines, and end-to-end parsePEL of text/JSON user-data sections; non-trivial = distinct text with a key line")
+        "plus arbitrary text lines, end-to-end parsePEL of text/JSON user-data sections, and the command line (-a, -l, -f stdout and -j "
+        "files on directories with selected, filtered and undecodable files, in-process and as subprocesses) parsed back; non-trivial = distinct text with a key line")
 
 ALPHA = ['"', "\\", ":", "{", "}", "[", "]", ",", " ", "a", "Z", "0", "é", " ", "/", "'", "\":", "\": ", "k", "\t", "\\\"", "\x7f"]
 
@@ -116,10 +117,95 @@ def run(run, model, proof):
         if not ok:
             run.violation("pretty:pel-output", "the printed PEL does not parse back to the decoded document",
                           dict(kind="S", fn="parsePEL", input_hex=data.hex(), printed=js[:1500]))
+    # the command line: what -a, -l, -f print and -j writes
+    for i in range(600 if thorough else 60):
+        cli_dir(run, model, rng, rng.choice([0, 1, 2, 3, 5, 8]), sub=(i % 30 == 0))
+
+
+def cli_dir(run, model, rng, nfiles, sub=False):
+    """stdout of -a / -l / -f and the files of -j parse back to the decoded documents, whatever the directory holds
+    (PELs the selection options leave out and files that do not decode included)"""
+    import os
+    import cli_runner
+    import dirgen
+    plugins = rng.random() < 0.6
+    files = dirgen.gen_dir(model, rng, nfiles, plugins=plugins, junk=rng.randrange(0, 3))
+    bits = rng.choice([0, 0, 0, 1, rng.randrange(64)])       # 0: informational / hidden PELs are left out
+    rev = rng.random() < 0.4
+    run.evaluations += 1
+    run.count("cli-dir")
+    rp = dict(fn="cli06", files=[[f[0], f[1].hex()] for f in files], bits=bits, rev=rev, plugins=plugins)
+    runner = cli_runner.run_subproc if sub else cli_runner.run_inproc
+    sel = cli_runner.sel_argv(bits, ()) + (["-P"] if not plugins else [])
+    with dirgen.TempDir(files) as d:
+        base = ["-p", d] + sel + (["-r"] if rev else [])
+        res = {m: runner(base + [m]) for m in ("-a", "-l")}
+        single = {}
+        for name, data, meta in files[:3]:
+            single[name] = runner(["-f", os.path.join(d, name)] + sel)
+        rj = runner(["-p", d, "-j"] + sel)
+        written = {n: open(os.path.join(d, n), encoding="utf-8").read() for n in sorted(os.listdir(d)) if n.endswith(".json") and n not in [f[0] for f in files]}
+    docs = {}
+    for name, data, meta in files:
+        r = pelgen.impl_decode(data, plugins)       # a damaged copy may still decode (and share its entry id with the original)
+        if r["kind"] == "ok":
+            docs[name] = r["doc"]
+    cands = {}
+    for doc in docs.values():
+        cands.setdefault(doc["Private Header"]["Entry Id"], []).append(doc)
+
+    def differs(back):
+        c = cands.get(back.get("Private Header", {}).get("Entry Id")) if isinstance(back, dict) else None
+        if not c or any(pelgen.first_diff(w, back) is None for w in c):
+            return None
+        return pelgen.first_diff(c[0], back)
+    for m, (rc, out, err) in res.items():
+        try:
+            back = json.loads(out, object_pairs_hook=OrderedDict)
+        except Exception as e:  # noqa: BLE001
+            run.violation("cli:not-json:" + m, "stdout of peltool %s is not valid JSON (%s)" % (m, e), dict(rp, kind="S", mode=m, stdout=out[-400:]))
+            continue
+        if m == "-a":
+            for doc in back if isinstance(back, list) else []:
+                if differs(doc):
+                    run.violation("cli:document-differs", "a document printed by -a differs from the decoded document at %s" % differs(doc),
+                                  dict(rp, kind="S", mode=m))
+    for name, (rc, out, err) in single.items():
+        if name in docs and out.strip():
+            try:
+                ok = pelgen.first_diff(docs[name], json.loads(out, object_pairs_hook=OrderedDict)) is None
+            except Exception:  # noqa: BLE001
+                ok = False
+            if not ok:
+                run.violation("cli:file-output", "stdout of peltool -f does not parse back to the decoded document", dict(rp, kind="S", name=name, stdout=out[:600]))
+    for n, text in written.items():
+        try:
+            back = json.loads(text, object_pairs_hook=OrderedDict)
+            ok = differs(back) is None
+        except Exception:  # noqa: BLE001
+            ok = False
+        if not ok:
+            run.violation("cli:json-file", "a file written by -j does not parse back to the decoded document", dict(rp, kind="S", name=n, text=text[:600]))
 
 
 def replay(run, model, path):
     r = json.load(open(path))
+    if r.get("fn") == "cli06":
+        import random as _r
+        import dirgen as _d
+        files = [(n, bytes.fromhex(h), dict(kind="pel")) for n, h in r["files"]]
+        orig = _d.gen_dir
+        _d.gen_dir = lambda *a, **k: files
+        try:
+            class FixedRng(_r.Random):
+                pass
+            rng = FixedRng(0)
+            rng.choice = lambda seq: r["bits"] if len(seq) == 5 else seq[0]
+            rng.random = lambda: 0.0 if r["plugins"] else 0.99
+            cli_dir(run, model, rng, len(files))
+        finally:
+            _d.gen_dir = orig
+        return
     if r.get("fn") == "prettyPrint":
         text = r["text"]
         try:
